@@ -53,8 +53,15 @@ def generate_lemmas(names):
     from .contract import LEMMAS
     from .lemma import lemma_obligations
 
+    from .contract import MODEL_LEMMAS
+    from .exec import Obligation
+
     out = []
     for n in names:
+        if n in MODEL_LEMMAS:
+            for suffix, hyps, goal in MODEL_LEMMAS[n]():
+                out.append(Obligation(f"lemma/{n}/{suffix}", list(hyps), goal, "lemma." + n, "lemma", 0, "unsat", "consequence of the stated contract of a builtin model", {}))
+            continue
         if LEMMAS[n].trusted:
             continue  # an axiom about a library operation: listed among the assumptions, not proved
         out.extend(lemma_obligations(LEMMAS[n]))
